@@ -161,7 +161,11 @@ func handleHelloResume(
 	cfg *dtlsconfig.HandshakeConfig,
 	next Flight,
 ) (Flight, *alert.Alert, error) {
-	if len(sessionID) > 0 && cfg.HasSessionStore {
+	// Only sessions made with the extended master secret are stored, and one is
+	// resumed only by a ClientHello that offers the extension again; any other
+	// ClientHello gets a full handshake.
+	// https://www.rfc-editor.org/rfc/rfc7627#section-5.3
+	if len(sessionID) > 0 && cfg.HasSessionStore && state.ExtendedMasterSecret {
 		if id, secret, err := cfg.GetSession(sessionID); err != nil {
 			return 0, &alert.Alert{Level: alert.Fatal, Description: alert.InternalError}, err
 		} else if id != nil {
